@@ -50,6 +50,67 @@ func (ex *Executable) Validate(root *Root) (errs []error) {
 	for _, f := range ex.Fragments {
 		errs = append(errs, f.Validate(root)...)
 	}
+	errs = append(errs, ex.validateFragmentCycles()...)
+	return
+}
+
+// validateFragmentCycles reports fragments that spread themselves, directly
+// or through other fragments. Resolving such a fragment would never end.
+func (ex *Executable) validateFragmentCycles() (errs []error) {
+	const (
+		visiting = 1
+		done     = 2
+	)
+	state := map[*Fragment]int{}
+	var walkSels func(sels []Selection) *FragRef
+	var walk func(f *Fragment) *FragRef
+	walk = func(f *Fragment) *FragRef {
+		state[f] = visiting
+		if fr := walkSels(f.Sels); fr != nil {
+			return fr
+		}
+		state[f] = done
+		return nil
+	}
+	walkSels = func(sels []Selection) *FragRef {
+		for _, sel := range sels {
+			switch ts := sel.(type) {
+			case *Field:
+				if fr := walkSels(ts.Sels); fr != nil {
+					return fr
+				}
+			case *Inline:
+				if fr := walkSels(ts.Sels); fr != nil {
+					return fr
+				}
+			case *FragRef:
+				switch state[ts.Fragment] {
+				case visiting:
+					return ts
+				case done:
+				default:
+					if fr := walk(ts.Fragment); fr != nil {
+						return fr
+					}
+				}
+			}
+		}
+		return nil
+	}
+	names := make([]string, 0, len(ex.Fragments))
+	for name := range ex.Fragments {
+		names = append(names, name)
+	}
+	sort.Strings(names)
+	for _, name := range names {
+		f := ex.Fragments[name]
+		if state[f] == 0 {
+			if fr := walk(f); fr != nil {
+				errs = append(errs, valError(fr.line, fr.col, "fragment %s is part of a fragment cycle", fr.Fragment.Name))
+				break
+			}
+		}
+	}
 	return
 }
 
